@@ -26,8 +26,6 @@ def _vacuity(path):
     seen = set()
     with open(path) as f:
         for i, line in enumerate(f):
-            if i % 5:
-                continue
             e = json.loads(line)["exp"]["old"]
             seen.add("end:" + e["msg"]["end"])
             for k in ("names", "qs", "rs"):
